@@ -101,8 +101,56 @@ def program(clauses, pre, exit_, where, caller):
     return "\n".join(lines) + "\n"
 
 
-def all_shapes():
+# ---- second family: the CATCH block of an inner try/catch (no finally: F14/F39) is left by every kind of exit, inside a loop that stands
+# in the try block of an OUTER try statement of the same function: handling (and leaving) the inner statement must not disable, pop or
+# duplicate the outer handler.  No break/continue crosses a try BLOCK (F13): they leave a catch block, whose handler is gone already.
+N_INNER = ["throw", "rt-error", "none"]
+N_CATCH_EXIT = ["fall", "continue", "break", "return", "rethrow"]
+N_OUTER = ["catch", "both", "finally"]
+N_OUTER_EXIT = ["throw", "fall", "deep"]
+N_WHERE = ["fn", "method", "fiber"]
+
+
+def nested_program(inner, cexit, outer, oexit, where):
+    trig = {"throw": 'if round < 2 { throw "inner" + String.from(round); }', "rt-error": "if round < 2 { var z = nil + round; }", "none": 'print("quiet");'}[inner]
+    cx = {"fall": [], "continue": ["continue;"], "break": ["break;"], "return": ['return "from catch";'], "rethrow": ['throw "again " + show(e);']}[cexit]
+    body = ['print("outer try");', "for round in 0..3 {", "    try {", '        print("inner try " + String.from(round));', "        " + trig,
+            "    } catch e {", '        print("inner catch " + show(e));'] + _ind(cx, 2) + ["    }", '    print("after inner " + String.from(round));', "}"]
+    body += {"throw": ['throw "outer-thrown";'], "fall": ['print("outer body end");'], "deep": ["print(deep(2));"]}[oexit]
+    t = ["try {"] + _ind(body)
+    if outer in ("catch", "both"):
+        t += ["} catch e2 {", '    print("outer catch " + show(e2));']
+    if outer in ("finally", "both"):
+        t += ["} finally {", '    print("outer finally");']
+    t += ["}", 'print("after outer");']
+    lines = list(PRELUDE)
+    if where == "fn":
+        lines += ["fn subject(arg) {", '    var before = "b";'] + _ind(t) + ['    return "end " + before;', "}"]
+        call = "subject(0)"
+    elif where == "method":
+        lines += ["#[constructor(new)]", "class Subject {", "    fn run(self, arg) {", '        self.tag = "m";'] + _ind(t, 2) + ['        return "end " + self.tag;', "    }", "}"]
+        call = "Subject.new().run(0)"
+    else:
+        lines += ["var fib = Fiber.new(|arg| {", '    var got = Fiber.yield("yielded");'] + _ind(t) + ['    return "fiber end";', "});", "print(fib.call(0));"]
+        call = 'fib.call("resumed")'
+    lines += ["try {", "    print(%s);" % call, "} catch e {", '    print("caller caught " + show(e));', "} finally {", '    print("caller finally");', "}"]
+    lines += ['try { throw "later"; } catch e { print("later caught " + show(e)); }', 'print("end");', 'throw "last";']
+    return "\n".join(lines) + "\n"
+
+
+def nested_shapes():
     out = []
+    for i in N_INNER:
+        for c in N_CATCH_EXIT:
+            for o in N_OUTER:
+                for x in N_OUTER_EXIT:
+                    for w in N_WHERE:
+                        out.append(("shape:nested/%s/%s/%s/%s/%s" % (i, c, o, x, w), nested_program(i, c, o, x, w)))
+    return out
+
+
+def all_shapes():
+    out = nested_shapes()
     for c in CLAUSES:
         for p in PRE:
             for x in EXIT:
